@@ -1,6 +1,7 @@
 //! C01 generator: multi-contract worlds (call graphs of up to 6 contracts assembled from instruction templates) and
 //! transactions of all five types on every SpecId Frontier … Prague, with boundary gas limits.
 use crate::c01::*;
+use crate::c01bnd::{compile, floor_points, sstore_plan, End, It, Kind, Script};
 use crate::*;
 use revm::interpreter::gas::calculate_initial_tx_gas;
 use revm::primitives::{AccessListItem, Address, SpecId, B256, U256};
@@ -94,6 +95,8 @@ pub struct Ctx {
     pub spec: SpecId,
     pub targets: Vec<Address>,
     pub number: u64,
+    /// thorough tier: initcode of the real EIP-3860 size (the list-based Lean model needs ~10 s for each such run)
+    pub big: bool,
 }
 
 fn small_off(rng: &mut Rng) -> u64 {
@@ -259,7 +262,7 @@ fn emit_create(rng: &mut Rng, a: &mut Asm, cx: &Ctx, out: &mut Out) {
     let salt = rng.below(3);
     if rng.chance(1, 10) {
         // large zero initcode straight from fresh memory (EIP-3860 limit / word cost)
-        let len = *rng.pick(&[0xc000u64, 0xc001, 0x8000, 100]);
+        let len = if cx.big { *rng.pick(&[0xc000u64, 0xc001, 0x8000, 100]) } else { *rng.pick(&[0x800u64, 0x7e1, 0x400, 100]) };
         if create2 {
             a.push_u(salt);
         }
@@ -540,14 +543,176 @@ fn ether(n: u64) -> U256 {
     U256::from(n) * U256::from(1_000_000_000_000_000_000u128)
 }
 
-pub fn gen_case(rng: &mut Rng, out: &mut Out) -> Case {
-    let spec = if rng.chance(1, 2) { *rng.pick(&[SpecId::CANCUN, SpecId::PRAGUE, SpecId::SHANGHAI, SpecId::LONDON]) } else { *rng.pick(&SPECS) };
+// ---------------------------------------------------------------------------------------------- cross-frame template
+//
+// A random frame script (c01bnd.rs): up to three nested frames entered by CALL-to-self / DELEGATECALL / CALLCODE /
+// CALL / STATICCALL, each writing the same few slots (values 0 / X / Y over originals 0 / X / Y), transient slots,
+// logs, creates and value calls, each ending in success / REVERT / a halt / SELFDESTRUCT: what a frame merges into its
+// parent on success only (refund counter incl. negative contributions, logs, journal) is exercised from every depth.
+
+const XV: [u64; 3] = [0, 5, 7];
+
+fn xf_end(rng: &mut Rng, level: usize) -> End {
+    if level == 0 {
+        match rng.below(20) {
+            0..=13 => End::Return,
+            14..=15 => End::Revert,
+            16 => End::Invalid,
+            17 => End::Stop,
+            18 => End::SelfDestruct(0xdead00),
+            _ => End::SelfDestructSelf,
+        }
+    } else {
+        match rng.below(20) {
+            0..=8 => End::Stop,
+            9 => End::Return,
+            10..=14 => End::Revert,
+            15..=16 => End::Invalid,
+            17 => *rng.pick(&[End::Underflow, End::BadJump]),
+            18 => End::SelfDestruct(*rng.pick(&[0xdead00u64, 0x1000, 0x1001])),
+            _ => End::SelfDestructSelf,
+        }
+    }
+}
+
+fn xf_body(rng: &mut Rng, level: usize, sc: &mut Script, theme: u64, out: &mut Out) -> usize {
+    let me = sc.bodies.len();
+    sc.bodies.push((vec![], End::Stop));
+    let mut items = vec![];
+    let k = rng.range(1, 4);
+    let mut called = false;
+    let mut last_child: Option<usize> = None;
+    for i in 0..k {
+        let want_call = level < 2 && (rng.chance(2, 5) || (i + 1 == k && !called && level == 0));
+        if want_call {
+            let kind = *rng.pick(&[Kind::CallSelf, Kind::CallSelf, Kind::Delegate, Kind::Delegate, Kind::CallCode, Kind::CallOther, Kind::Static]);
+            // mostly a fresh body; sometimes the same deeper body a second time
+            let body = match last_child {
+                Some(b) if rng.chance(1, 4) => b,
+                _ => xf_body(rng, level + 1, sc, theme, out),
+            };
+            last_child = Some(body);
+            let gas = match rng.below(10) {
+                0 => None,
+                1 => Some(*rng.pick(&[0u64, 2300, 2301, 5000, 20_000])),
+                _ => Some(if level == 0 { 300_000 } else { 100_000 }),
+            };
+            let value = if rng.chance(1, 6) { rng.range(1, 3) } else { 0 };
+            items.push(It::Call { kind, body, gas, value });
+            out.count(&format!("xframe-enter-{}", kind.tag()));
+            called = true;
+            continue;
+        }
+        // the theme biases the per-frame accumulator under test
+        let pick = if rng.chance(1, 2) { theme } else { rng.below(8) };
+        items.push(match pick {
+            0 | 1 => It::Sstore(if rng.chance(3, 4) { 0 } else { 1 }, *rng.pick(&XV)),
+            2 => It::Log(rng.range(1, 9)),
+            3 => {
+                if rng.chance(1, 2) {
+                    It::Tstore(rng.below(2), *rng.pick(&XV))
+                } else {
+                    It::Tload(rng.below(2))
+                }
+            }
+            4 => match rng.below(4) {
+                0 => It::Sload(rng.below(4)),
+                1 => It::Balance(*rng.pick(&[0xbeefu64, 0x1001, 0xdead00])),
+                2 => It::ExtCodeSize(*rng.pick(&[0xbeefu64, 0x1001])),
+                _ => It::Gas,
+            },
+            5 => It::CallAddr { to: *rng.pick(&[0xe0au64, 0xaaaa02, 0xdead00, 4]), gas: Some(0), value: rng.below(3) },
+            6 => {
+                let init: Vec<u8> = match rng.below(5) {
+                    0 => vec![0x60, 0x00, 0x60, 0x00, 0xfd],
+                    1 => vec![0xfe],
+                    2 => vec![0x33, 0xff],
+                    _ => vec![0x60, 0x00, 0x60, 0x00, 0x53, 0x60, 0x01, 0x60, 0x00, 0xf3],
+                };
+                It::Create { salt: if rng.chance(1, 2) { Some(rng.below(2)) } else { None }, init, value: rng.below(2) }
+            }
+            _ => It::Sload(rng.below(2)),
+        });
+    }
+    sc.bodies[me] = (items, xf_end(rng, level));
+    me
+}
+
+/// replaces contract 0 (and its twin, contract 1) by a random frame script; returns the tag of the theme
+fn xframe_world(rng: &mut Rng, c: &mut Case, out: &mut Out) {
+    let theme = rng.below(7);
+    let mut sc = Script { bodies: vec![], quiet: rng.chance(1, 3) };
+    let mut st: Vec<(U256, U256)> =
+        (0..2u64).filter_map(|k| { let v = *rng.pick(&XV); if v == 0 { None } else { Some((U256::from(k), U256::from(v))) } }).collect();
+    if theme < 2 && rng.chance(3, 4) {
+        // a random point of the cross product of c01bnd.rs `xframe_sstore`: two or three writes of 0 / original / other
+        // on one slot at random places of the timeline outer - inner - inner-inner - inner - outer
+        let orig = if rng.chance(3, 4) { 5 } else { 0 };
+        let len = rng.range(2, 3) as usize;
+        let mut pos: Vec<usize> = (0..len).map(|_| rng.below(5) as usize).collect();
+        pos.sort();
+        let vals: Vec<u64> = (0..len).map(|_| *rng.pick(&[0u64, 0, 5, 5, 7])).collect();
+        let kinds = [Kind::CallSelf, Kind::CallSelf, Kind::Delegate, Kind::Delegate, Kind::CallCode, Kind::CallCode, Kind::CallOther, Kind::Static];
+        let ends = [End::Stop, End::Stop, End::Stop, End::Return, End::Revert, End::Revert, End::Invalid, End::Underflow];
+        sc = sstore_plan(*rng.pick(&kinds), *rng.pick(&kinds), &pos, &vals, *rng.pick(&ends), *rng.pick(&ends), rng.below(5));
+        st = if orig == 0 { vec![] } else { vec![(U256::ZERO, U256::from(orig))] };
+        out.count("xframe-sstore-lock-pattern");
+    } else {
+        xf_body(rng, 0, &mut sc, theme, out);
+    }
+    let code = compile(&sc, 0x1001);
+    for i in 0..2 {
+        let a = c.accts.iter_mut().find(|a| a.addr == contract(i)).unwrap();
+        a.code = code.clone();
+        a.storage = st.clone();
+        a.balance = *rng.pick(&[U256::ZERO, U256::from(2), U256::from(1000)]);
+    }
+    out.count(&format!(
+        "xframe-theme-{}",
+        ["sstore-refund", "sstore-refund", "logs", "transient", "warmth", "value", "create"][theme as usize]
+    ));
+    out.count(&format!("xframe-frames-{}", sc.bodies.len()));
+    for (i, b) in sc.bodies.iter().enumerate() {
+        out.count(&format!("xframe-{}-frame-ends-{}", if i == 0 { "outer" } else { "inner" }, b.1.tag()));
+    }
+}
+
+pub fn gen_case(rng: &mut Rng, out: &mut Out, big: bool) -> Case {
+    // two of five worlds are cross-frame scripts, on the forks whose refund / warmth / transient rules differ
+    let template = rng.below(20);
+    let xframe = template < 8;
+    // one world in ten: Prague calldata floor against refunds (see `floor_world`)
+    let floor_tpl = template >= 8 && template < 10;
+    let spec = if floor_tpl {
+        if rng.chance(9, 10) { SpecId::PRAGUE } else { SpecId::CANCUN }
+    } else if xframe && rng.chance(2, 3) {
+        *rng.pick(&[
+            SpecId::CONSTANTINOPLE,
+            SpecId::PETERSBURG,
+            SpecId::ISTANBUL,
+            SpecId::BERLIN,
+            SpecId::LONDON,
+            SpecId::CANCUN,
+            SpecId::PRAGUE,
+        ])
+    } else if rng.chance(1, 2) {
+        *rng.pick(&[SpecId::CANCUN, SpecId::PRAGUE, SpecId::SHANGHAI, SpecId::LONDON])
+    } else {
+        *rng.pick(&SPECS)
+    };
+    out.count(if xframe {
+        "template-cross-frame-script"
+    } else if floor_tpl {
+        "template-floor-against-refund"
+    } else {
+        "template-instruction-mix"
+    });
     out.count(&format!("spec-{:?}", spec));
     let en = |s: SpecId| SpecId::enabled(spec, s);
     let number = *rng.pick(&[1u64, 10, 255, 256, 257, 300, 1000, 20_000_000]);
-    let ncontracts = rng.range(1, 6) as usize;
+    let ncontracts = rng.range(if xframe { 2 } else { 1 }, 6) as usize;
     let mut targets: Vec<Address> = (0..ncontracts).map(contract).collect();
-    let cx = Ctx { spec, targets: targets.clone(), number };
+    let cx = Ctx { spec, targets: targets.clone(), number, big };
     let basefee = *rng.pick(&[0u64, 7, 7, 1000]);
     let mut c = Case {
         spec,
@@ -606,8 +771,35 @@ pub fn gen_case(rng: &mut Rng, out: &mut Out) -> Case {
         targets.push(eoa3());
         out.count("prestate-delegated-eoa");
     }
+    if xframe {
+        xframe_world(rng, &mut c, out);
+    }
+    // floor template: contract 0 clears `fl_n` slots, spends `fl_burn` more gas, then ends
+    let fl_n = rng.below(9);
+    let fl_end = *rng.pick(&[0xf3u8, 0xf3, 0xf3, 0x00, 0x00, 0xfd, 0xfe]);
+    if floor_tpl {
+        let burn = *rng.pick(&[0u64, 0, 1, 7, 100, 1000, 3000]);
+        let mut a = Asm::new();
+        for k in 0..fl_n {
+            a.push_u(0).push_u(k).op(0x55);
+        }
+        for _ in 0..burn {
+            a.op(0x5b);
+        }
+        if fl_end == 0xf3 || fl_end == 0xfd {
+            a.push_u(0).push_u(0);
+        }
+        a.op(fl_end);
+        let acc = c.accts.iter_mut().find(|x| x.addr == contract(0)).unwrap();
+        acc.code = a.code;
+        acc.storage = (0..fl_n).map(|k| (U256::from(k), U256::from(0xffu64))).collect();
+        if !c.accts.iter().any(|x| x.addr == eoa2()) {
+            c.accts.push(Acct { addr: eoa2(), balance: U256::from(1), nonce: rng.below(3), ..Default::default() });
+        }
+    }
     // transaction
     let kind = match rng.below(20) {
+        _ if xframe || floor_tpl => "call",
         0..=2 => "create",
         3 => "to-eoa",
         4 => "to-precompile",
@@ -629,9 +821,23 @@ pub fn gen_case(rng: &mut Rng, out: &mut Out) -> Case {
         "to-eoa" => Some(*rng.pick(&[eoa2(), sender(), eoa3()])),
         "to-precompile" => Some(a_n(rng.range(1, 17))),
         "to-nobody" => Some(nobody()),
+        _ if xframe || floor_tpl => Some(contract(0)),
         _ => Some(*rng.pick(&targets)),
     };
     t.data = match kind {
+        // the calldata size selects the body: mostly the outer one
+        // (any other size runs the outer body too: long non-zero calldata puts the EIP-7623 floor of Prague among the
+        // refunds earned across the frames)
+        _ if xframe => {
+            if rng.chance(1, 12) {
+                vec![0u8; rng.range(1, 3) as usize]
+            } else if rng.chance(1, 3) {
+                out.count("xframe-long-calldata");
+                vec![0x11u8; (*rng.pick(&[100u64, 200, 400, 800, 1200]) + rng.below(40)) as usize]
+            } else {
+                vec![]
+            }
+        }
         "create" => {
             if rng.chance(1, 2) {
                 small_initcode(rng, &cx).0
@@ -661,7 +867,7 @@ pub fn gen_case(rng: &mut Rng, out: &mut Out) -> Case {
             d
         }
         _ => {
-            let l = *rng.pick(&[0usize, 0, 4, 32, 36, 100]);
+            let l = *rng.pick(&[0usize, 0, 0, 4, 4, 32, 36, 100, 100, 300, 900]);
             let mut d = rng.bytes(l);
             for b in d.iter_mut() {
                 if rng.chance(1, 3) {
@@ -780,9 +986,67 @@ pub fn gen_case(rng: &mut Rng, out: &mut Out) -> Case {
         if t.to.is_none() && rng.chance(9, 10) {
             t.to = Some(*rng.pick(&targets));
         }
-        if rng.chance(1, 2) {
+        if rng.chance(1, 2) && !xframe && !floor_tpl {
             t.to = Some(eoa2());
         }
+    }
+    if floor_tpl {
+        // own authorization list: valid ones of an existing authority earn the EIP-7702 refund
+        let mut existing = 0u64;
+        if ty == 4 {
+            let n2 = c.accts.iter().find(|a| a.addr == eoa2()).map(|a| a.nonce).unwrap_or(0);
+            let mut l = vec![];
+            if rng.chance(3, 4) {
+                l.push(AuthItem { chain_id: U256::from(1), address: contract(0), nonce: n2, authority: Some(eoa2()) });
+                existing += 1;
+            }
+            if rng.chance(1, 3) {
+                l.push(AuthItem { chain_id: U256::from(1), address: contract(0), nonce: 0, authority: Some(a_n(0xaaaa09)) });
+            }
+            if rng.chance(1, 3) || l.is_empty() {
+                l.push(AuthItem { chain_id: U256::from(1), address: contract(0), nonce: 0, authority: None });
+            }
+            t.auth = Some(l);
+            t.to = Some(contract(0));
+        }
+        t.value = U256::ZERO;
+        t.nonce = Some(sender_nonce);
+        t.chain_id = Some(1);
+        // gas of the execution from a first run without calldata
+        let items: Vec<AccessListItem> = t
+            .access_list
+            .iter()
+            .map(|(a, ks)| AccessListItem { address: *a, storage_keys: ks.iter().map(|k| B256::from(*k)).collect() })
+            .collect();
+        let nauth = t.auth.as_ref().map(|l| l.len() as u64).unwrap_or(0);
+        let intr0 = calculate_initial_tx_gas(revm_canon(spec), &[], false, &items, nauth).initial_gas;
+        let mut probe = t.clone();
+        probe.data = vec![];
+        probe.gas_limit = 1_000_000;
+        let r = {
+            let p = c.clone();
+            guarded(move || run_tx(&p, &probe))
+        };
+        let halts = fl_end == 0xfe;
+        let limit = if halts { intr0 + *rng.pick(&[30_000u64, 60_000]) } else { 1_000_000 };
+        // a reverting run reports no refund: its 7702 refund is known by construction
+        let spent0 = gas_of(&r).map(|(u, rf)| u + rf + if r.starts_with("revert") { 12_500 * existing } else { 0 });
+        let raw = (if fl_end == 0xf3 || fl_end == 0x00 { 4800 * fl_n } else { 0 }) + 12_500 * existing;
+        let mut nz = *rng.pick(&[0u64, 10, 200, 1000]);
+        if let Some(s0) = spent0 {
+            let pts = floor_points(intr0, s0.saturating_sub(intr0), raw, limit, halts, 2, 3);
+            if !pts.is_empty() && rng.chance(9, 10) {
+                nz = *rng.pick(&pts);
+                out.count("floor-template-at-a-crossing");
+            }
+        }
+        t.data = vec![0x11u8; nz as usize];
+        // zero bytes shift the floor by 10 and the intrinsic gas by 4 each
+        for _ in 0..*rng.pick(&[0u64, 0, 0, 1, 2, 5]) {
+            t.data.push(0);
+        }
+        c.txs.push(TxSpec { gas_limit: limit, ..t.clone() });
+        return c;
     }
     // gas limit
     let al_items: Vec<AccessListItem> = t
@@ -811,6 +1075,10 @@ pub fn gen_case(rng: &mut Rng, out: &mut Out) -> Case {
         15..=24 => floor + rng.range(5_000, 100_000),
         _ => floor + rng.range(100_000, 1_500_000),
     };
+    if xframe && rng.chance(4, 5) {
+        // the frames need room: the interesting limits come from the "exactly spent / one less" reruns
+        t.gas_limit = floor + rng.range(600_000, 1_500_000);
+    }
     // occasionally a sender that cannot pay
     if rng.chance(1, 25) {
         let need = U256::from(t.gas_limit) * t.gas_price + t.value;
@@ -851,7 +1119,7 @@ pub fn generate(seed: u64, n: usize, cases: &mut Vec<(Option<String>, Case)>, ou
     let mut rng = Rng::new(seed ^ 0xC01);
     let mut made = 0usize;
     while made < n {
-        let mut c = gen_case(&mut rng, out);
+        let mut c = gen_case(&mut rng, out, n >= 2000);
         // boundary gas limits derived from the first run: exactly what was spent, one less
         if rng.chance(1, 3) {
             let t0 = c.txs[0].clone();
